@@ -16,6 +16,9 @@ def programs(tabs):
         out.append((d, bc.prog(d, [(0, [0xF4, 32, 0x80, 0x81]), (65279, [0xF5, 58, 0xFD, 0xA3])])))
         out.append((d, bc.prog(d, [(10, [0xF1] + [65 + i % 26 for i in range(60)]), (20, [0xF1, 34] + [200 + i % 50 for i in range(40)] + [34]),
                                    (30, [88, 89, 90])])))
+    # lines with an empty body (legitimate spacer lines): their terminator / header bytes are framing like any other
+    for d in ("6502", "ARM", "Z80", "Windows", "PDP11"):
+        out.append((d, bc.prog(d, [(10, [0xDB]), (20, []), (30, [0xF1, 34, 72, 34]), (40, []), (50, [0xE0])])))
     return out
 
 
@@ -92,6 +95,31 @@ def run(chk, tier, seed):
                 return dict(e="multi", label="multi-" + "".join(s), dialect=d, listo=7, out=list(o.out), rc=o.rc if o.rc is not None else -9,
                             outs=[list(single[k].out) for k in s], rcs=[single[k].rc for k in s], inp=[ord(c) for c in "".join(s)])
             events += common.pmap(dom, seqs)
+        # stale state: a file whose last line ends in each byte value (where a reader that looks ahead would look past the line),
+        # and each short input of the reader model, listed alone and after a "poison" file made of one long line of a byte the
+        # look-ahead might be looking for.  Basic.tla: buf is per line; R: each file's listing depends only on that file.
+        for d in ("6502", "ARM", "Z80", "Windows", "PDP11"):
+            victims = {}
+            for b in range(0x80, 0x100):
+                victims["eol%02x" % b] = bc.prog(d, [(20, [65, b])])
+                if not quick or b % 4 == 0:
+                    victims["mid%02x" % b] = bc.prog(d, [(20, [b]), (30, [66])])
+            poisons = {}
+            for v in ([0x98, 0x0D, 0x8D] if quick else [0x98, 0x0D, 0x8D, 0x22, 0xFF, 0x41, 0x00, 0xC6]):
+                poisons["p%02x" % v] = bc.prog(d, [(10, [0xF4] + [v] * 240)])
+            paths, single = {}, {}
+            for k, dat in list(victims.items()) + list(poisons.items()):
+                paths[k] = os.path.join(scratch, "st-%s-%s.bbc" % (d, k))
+                open(paths[k], "wb").write(dat)
+            for k, o in zip(paths, common.pmap(lambda k: common.run([exe, "--dialect", d, paths[k]]), list(paths))):
+                single[k] = o
+
+            def dop(pv):
+                pk, vk = pv
+                o = common.run([exe, "--dialect", d, paths[pk], paths[vk]])
+                return dict(e="multi", label="stale-%s-%s" % (pk, vk), dialect=d, listo=7, out=list(o.out), rc=o.rc if o.rc is not None else -9,
+                            outs=[list(single[pk].out), list(single[vk].out)], rcs=[single[pk].rc, single[vk].rc], inp=list(victims[vk]))
+            events += common.pmap(dop, [(pk, vk) for pk in poisons for vk in victims])
         for e in events:
             if e["e"] == "multi":
                 chk.case(("multi", e["dialect"], e["label"]))
